@@ -137,6 +137,9 @@ var operatorsOfKind = [...][22]bool{
 	reflect.Complex128: complexOperators,
 	reflect.String:     stringOperators,
 	reflect.Interface:  interfaceOperators,
+	// The array must have an element for every kind: no operator is defined
+	// on the kinds not listed above, as struct and unsafe pointer.
+	reflect.UnsafePointer: {},
 }
 
 var constantKindName = map[reflect.Kind]string{
